@@ -1383,6 +1383,41 @@ func ruleSessionIDWithSecret(c *Ctx, r *Report) {
 				// the offered ID handed to the resumption helper, used with the store's secret
 				if len(findDynCallsOfField(fn, "GetSession")) > 0 {
 					ok, why = true, "the offered ID, looked up in the session store in this function"
+				} else if sites, complete := c.staticCallers(fn); complete && len(sites) > 0 && x.Parent() == fn {
+					// the helper that installs a looked-up session: every caller did the lookup
+					// and hands over the ID it looked up (its own parameter or the store's answer)
+					all := true
+					for _, s := range sites {
+						call, isCall := s.Call.(*ssa.Call)
+						idx := paramIndex(x)
+						gets := findDynCallsOfField(s.Fn, "GetSession")
+						if !isCall || idx < 0 || idx >= len(call.Call.Args) || len(gets) == 0 {
+							all = false
+							continue
+						}
+						arg := unspill(call.Call.Args[idx])
+						_, isParam := arg.(*ssa.Parameter)
+						fromGet := false
+						if ex, isEx := arg.(*ssa.Extract); isEx && ex.Index == 0 {
+							for _, g := range gets {
+								if ex.Tuple == ssa.Value(g) {
+									fromGet = true
+								}
+							}
+						}
+						dominated := false
+						for _, g := range gets {
+							if instrDominates(g, call) {
+								dominated = true
+							}
+						}
+						if !(isParam || fromGet) || !dominated {
+							all = false
+						}
+					}
+					if all {
+						ok, why = true, "the offered ID, looked up in the session store by every caller of this helper"
+					}
 				}
 			case *ssa.Call:
 				if calleeName(&x.Call) == "bytes.Clone" || calleeName(&x.Call) == "slices.Clone" {
